@@ -46,5 +46,6 @@ Inductive stmt :=
 | SGlobal (xs : list string)
 | SPass.
 
-(* a function: parameters with optional (constant) defaults, and a body *)
-Record fundef := { fparams : list (string * option const); fbody : list stmt }.
+(* a function: parameters with optional (constant) defaults, whether it has *args/**kwargs
+   parameters that its body never mentions (surplus arguments are accepted and dropped), and a body *)
+Record fundef := { fparams : list (string * option const); fextra : bool; fbody : list stmt }.
